@@ -289,7 +289,8 @@ def check(chk: Check) -> None:
                         continue          # method call: classified by R4
                     key = '%s :: `%s`' % (q, e.text())
                     ok = f[0] == 'sub' and f[1] == ('attr', stt, 'names') and isinstance(f[2], tuple) and f[2][:2] == ('attr', selft)
-                    seen[key] = (ok, e.line, show(f))
+                    if key not in seen or not ok:          # one bad path is enough: a later good path must not hide it
+                        seen[key] = (ok, e.line, show(f))
         for key, (ok, line, fs) in sorted(seen.items()):
             n_dyn += 1
             chk.require(ok, R2, key, '%s:%d' % (fi.module.rel, line),
@@ -561,6 +562,40 @@ IMPLICIT_PROTOCOL = {'__init__', '__new__', '__post_init__', '__enter__', '__exi
 
 def _r4(chk: Check, R4: str) -> None:
     F = chk.facts
+    # building the PLY lexer / LALR parser reads rules.py, imports or writes the table modules under gen/ and execs import
+    # statements: it belongs to construction.  Outside a constructor it would run during some parse / eval / list_names call.
+    n_build = 0
+    for m in F.modules.values():
+        if '.ply' in m.name:
+            continue
+        for q_, fi_ in F.functions.items():
+            if fi_.module is not m:
+                continue
+            for n_ in ast.walk(fi_.node):
+                if isinstance(n_, ast.Call) and F.resolve_expr(m, n_.func) in (('ext', 'smartquery.ply.lex.lex'), ('ext', 'smartquery.ply.yacc.yacc')):
+                    # attribute the call to the innermost function that contains it
+                    inner = [q2 for q2, f2 in F.functions.items() if f2.module is m and q2.startswith(q_ + '.') and any(x is n_ for x in ast.walk(f2.node))]
+                    if inner:
+                        continue
+                    n_build += 1
+                    def construction_only(q, seen=()):
+                        if q.rsplit('.', 1)[-1] in ('__init__', '__new__', '__post_init__'):
+                            return True
+                        if q in seen:
+                            return False
+                        nm = q.rsplit('.', 1)[-1]
+                        fnode = F.functions[q].node
+                        if any(isinstance(d, ast.Name) and d.id in ('property', 'cached_property') or isinstance(d, ast.Attribute) and d.attr in (
+                                'cached_property',) for d in getattr(fnode, 'decorator_list', [])):
+                            return False        # evaluated on attribute access, wherever that happens
+                        users = [q2 for q2, f2 in F.functions.items() if q2 != q and '.ply' not in f2.module.name and any(
+                            (isinstance(x, ast.Attribute) and x.attr == nm) or (isinstance(x, ast.Name) and x.id == nm) for x in ast.walk(f2.node))]
+                        return bool(users) and all(construction_only(u, seen + (q,)) for u in users)
+                    ctor = construction_only(q_)
+                    chk.require(ctor, R4, '%s :: `%s`' % (q_, norm(n_.func)), '%s:%d' % (m.rel, n_.lineno),
+                                'PLY tables are built in a constructor' if ctor else
+                                'the PLY lexer / parser is built in %s, not in a constructor: table generation (file reads and writes '
+                                'under gen/, exec of import statements) then happens during a parse / eval / list_names call' % q_)
     todo = list(entry_units(chk))
     done = set()
     while todo:
